@@ -1,11 +1,12 @@
 #!/bin/bash
 # runs every claimed check's quick tier sequentially; summary at the end
-cd /verif
+cd "$(cd "$(dirname "$0")/.." && pwd)"
+TAG=${2:-allquick}
 ids=$(python3 -c "import json; print(' '.join(c['property_id'] for c in json.load(open('MANIFEST.json'))['checks']))")
-: > /dev/shm/allquick.summary
+: > /dev/shm/$TAG.summary
 for p in $ids; do
   t0=$(date +%s)
-  ./check.sh $p ${1:-quick} > /dev/shm/allquick-$p.log 2>&1; rc=$?
-  echo "$p exit=$rc wall=$(( $(date +%s) - t0 ))s $(grep -cE '^KNOWN-FINDING' /dev/shm/allquick-$p.log) known; $(tail -1 /dev/shm/allquick-$p.log | cut -c1-120)" >> /dev/shm/allquick.summary
+  ./check.sh $p ${1:-quick} > /dev/shm/$TAG-$p.log 2>&1; rc=$?
+  echo "$p exit=$rc wall=$(( $(date +%s) - t0 ))s $(grep -cE '^KNOWN-FINDING' /dev/shm/$TAG-$p.log) known; $(tail -1 /dev/shm/$TAG-$p.log | cut -c1-120)" >> /dev/shm/$TAG.summary
 done
-echo ALLDONE >> /dev/shm/allquick.summary
+echo ALLDONE >> /dev/shm/$TAG.summary
